@@ -102,6 +102,11 @@ PARTIAL = [
     "rendering (rasterisation of the artists by matplotlib/Agg) is trusted: the check reads artist data, not pixels",
 ]
 ASSUMPTIONS = [
+    "options whose value equals the documented default are, on a per-option coin, omitted from the call (ax, df, "
+    "transpose_measures, vmin, vmax, cbar, boundary_lw, plot_centroids, clip, sort_archive, measure_order, "
+    "lower_bounds / upper_bounds): the oracle then judges against the documented default; cbar='auto' (default) must "
+    "add exactly one colour-bar Axes, cbar=None none; parallel axes: axis i stands at x = i with the label of its "
+    "measure (oracle only, not modelled)",
     "the frame passed as df is archive.data(return_type='pandas') or a reordering / relabelling / row subset of "
     "it, possibly with a replaced objective column (distinct, in-range indices)",
     "parallel_axes_plot: on an axis whose archive bounds coincide (zero range) the limits need only contain the "
@@ -337,12 +342,72 @@ def plots_for(case, view):
             yield k, v
 
 
+# DOCUMENTED defaults of the keyword options (docstrings of ribs.visualize): an option whose value in a variant
+# equals its documented default is, on a per-option coin, OMITTED from the call instead of being passed explicitly,
+# so the picture is judged against the documented default (transpose off: x axis = measure 0; colour limits = range
+# of the stored objectives; colour bar drawn; no boundary lines; parallel axes in measure order, unsorted; ...).
+DEFAULTS = {"df": None, "transpose_measures": False, "vmin": None, "vmax": None, "cbar": "auto",
+            "boundary_lw": 0, "plot_centroids": False, "clip": False, "sort_archive": False,
+            "measure_order": None, "lower_bounds": None, "upper_bounds": None}
+
+
 def gen_variant(rng, sc, **extra):
     vmin, vmax = gen_clim(rng, sc)
     v = {"vmin": vmin, "vmax": vmax, "cbar": rng.random() < 0.3, "gca": rng.random() < 0.25,
          "dfmode": rng.choice(DF_MODES) if rng.random() < 0.5 else None}
     v.update(extra)
+    v["omit"] = {k: rng.random() < 0.5 for k in sorted(DEFAULTS) + ["ax"]}
     return v
+
+
+def is_default(name, value):
+    d = DEFAULTS[name]
+    if d is None:
+        return value is None
+    return isinstance(value, (bool, int, float, str)) and value == d
+
+
+def invoke(fn, archive, fg, variant, kwargs, df, vmin, vmax):
+    """calls the plot function; options at their documented default are omitted when the variant's coin says so."""
+    full = dict(kwargs, df=df, vmin=vmin, vmax=vmax, cbar="auto" if variant.get("cbar") else None)
+    omit = variant.get("omit") or {}
+    passed = {}
+    for k, val in full.items():
+        if omit.get(k) and k in DEFAULTS and is_default(k, val):
+            stat(f"omitted:{k}")
+        else:
+            passed[k] = val
+    if fg.ax_arg is None and omit.get("ax"):
+        stat("omitted:ax")
+        return fn(archive, **passed)
+    return fn(archive, fg.ax_arg, **passed)
+
+
+def marker_lines(fg, markers, tag):
+    """Line2D artists on the plot Axes: none by default (plot_centroids / plot_samples are off unless asked for);
+    with plot_centroids=True exactly the centroids.  `markers=None`: the lines are the picture itself (parallel)."""
+    if markers is None:
+        return None
+    got = [(np.asarray(ln.get_xdata(), dtype=float), np.asarray(ln.get_ydata(), dtype=float))
+           for ln in fg.ax.get_lines()]
+    if len(got) != len(markers) or not all(np.array_equal(g[0], np.asarray(w[0], dtype=float)) and
+                                           np.array_equal(g[1], np.asarray(w[1], dtype=float))
+                                           for g, w in zip(got, markers)):
+        return (f"{tag}: {len(got)} Line2D marker set(s) on the Axes, expected {len(markers)} "
+                f"({'the centroids' if markers else 'none: plot_centroids / plot_samples are off'})")
+    return None
+
+
+def cbar_presence(fg, n_before, twin_axes, variant, tag):
+    """cbar='auto' (the documented default) draws a colour bar on a new Axes of the figure; cbar=None draws none.
+    (The colour bar is how a viewer decodes the colours; for the 2-D CVT heat-map and the parallel axes plot it is
+    also the only artist carrying the colour limits.)"""
+    extra = len(fg.fig.axes) - n_before - twin_axes
+    want = 1 if variant.get("cbar") else 0
+    if extra != want:
+        return (f"{tag}: {extra} colour-bar Axes added to the figure with cbar="
+                f"{'auto (documented default)' if want else 'None'}, expected {want}")
+    return None
 
 
 def effective_limits(variant, objs):
@@ -539,12 +604,12 @@ def judge(oracle, corr, obs=None):
 # running one plot variant with the archive and with df=
 
 
-def call_both(fn, archive, variant, kwargs, read, where, vmin, vmax, frame=None):
+def call_both(fn, archive, variant, kwargs, read, where, vmin, vmax, frame=None, twin_axes=0, markers=()):
     """Runs `fn` with the archive and with df=archive.data(pandas) — or, when `frame` is given, once with
     df=frame. Returns (obs, Failure|None)."""
     warnings.simplefilter("ignore")
     if frame is not None:
-        return call_frame(fn, archive, variant, kwargs, read, where, vmin, vmax, frame)
+        return call_frame(fn, archive, variant, kwargs, read, where, vmin, vmax, frame, twin_axes, markers)
     stat(f"plots:{fn.__name__}", 2)
     stat("variant:" + ("default-limits" if vmin is None and vmax is None else
                        "explicit-limits" if vmin is not None and vmax is not None else "one-sided-limits"))
@@ -558,8 +623,7 @@ def call_both(fn, archive, variant, kwargs, read, where, vmin, vmax, frame=None)
         try:
             n_before = len(fg.fig.axes)
             try:
-                fn(archive, fg.ax_arg, df=df, vmin=vmin, vmax=vmax,
-                   cbar="auto" if variant.get("cbar") else None, **kwargs)
+                invoke(fn, archive, fg, variant, kwargs, df, vmin, vmax)
             except Exception as e:  # pylint: disable=broad-except
                 key = None
                 if fn.__name__ == "grid_archive_heatmap" and archive.measure_dim == 1 and len(archive) == 1:
@@ -567,8 +631,9 @@ def call_both(fn, archive, variant, kwargs, read, where, vmin, vmax, frame=None)
                 return None, Failure("oracle", f"{tag}: {fn.__name__} raised {type(e).__name__} on a valid "
                                      f"archive ({len(archive)} elites): {str(e)[:120]}", key=key)
             obs, err = read(fg, n_before)
+            err = err or cbar_presence(fg, n_before, twin_axes, variant, tag) or marker_lines(fg, markers, tag)
             if err:
-                return None, Failure("oracle", f"{tag}: {err}")
+                return None, Failure("oracle", f"{tag}: {err}" if not err.startswith(tag) else err)
             obs["_cbar"] = bool(variant.get("cbar"))
         finally:
             fg.close()
@@ -587,7 +652,7 @@ def call_both(fn, archive, variant, kwargs, read, where, vmin, vmax, frame=None)
     return out[0], None
 
 
-def call_frame(fn, archive, variant, kwargs, read, where, vmin, vmax, frame):
+def call_frame(fn, archive, variant, kwargs, read, where, vmin, vmax, frame, twin_axes=0, markers=()):
     stat(f"plots:{fn.__name__}", 1)
     stat(f"df-mode:{variant.get('dfmode')}")
     tag = f"{where} df=<{variant.get('dfmode')} frame, row labels {list(frame.index)[:6]}>"
@@ -597,14 +662,14 @@ def call_frame(fn, archive, variant, kwargs, read, where, vmin, vmax, frame):
     try:
         n_before = len(fg.fig.axes)
         try:
-            fn(archive, fg.ax_arg, df=frame, vmin=vmin, vmax=vmax,
-               cbar="auto" if variant.get("cbar") else None, **kwargs)
+            invoke(fn, archive, fg, variant, kwargs, frame, vmin, vmax)
         except Exception as e:  # pylint: disable=broad-except
             return None, Failure("oracle", f"{tag}: {fn.__name__} raised {type(e).__name__} on a valid frame "
                                  f"({len(frame)} rows): {str(e)[:120]}")
         obs, err = read(fg, n_before)
+        err = err or cbar_presence(fg, n_before, twin_axes, variant, tag) or marker_lines(fg, markers, tag)
         if err:
-            return None, Failure("oracle", f"{tag}: {err}")
+            return None, Failure("oracle", f"{tag}: {err}" if not err.startswith(tag) else err)
         obs["_cbar"] = bool(variant.get("cbar"))
     finally:
         fg.close()
@@ -824,10 +889,10 @@ def run_cvt1(case, view=None):
         where = f"cvt1 plot#{k} vmin={vmin} vmax={vmax}"
         where += view_tag(view)
         kw = {"transpose_measures": bool(v["tr"])}
-        if v.get("plot_centroids"):
-            kw["plot_centroids"] = True
+        kw["plot_centroids"] = bool(v.get("plot_centroids"))
+        markers = [(a.centroids[:, 0], np.full(len(cs), 0.5))] if kw["plot_centroids"] else []
         obs, fail = call_both(cvt_archive_heatmap, a, v, kw, lambda fg, n: read_quadmesh(fg.ax), where, vmin, vmax,
-                              frame=frame)
+                              frame=frame, markers=markers)
         if fail:
             return fail
         # ---- oracle
@@ -893,7 +958,7 @@ def gen_cvt2(rng, pattern=None, scale=None):
     cma = replaced_history(rng, sc, ops, "c") if pattern == "replaced" else None
     plots = []
     for tr in (False, True):
-        v = gen_variant(rng, sc, tr=tr, clip=rng.random() < 0.25)
+        v = gen_variant(rng, sc, tr=tr, clip=rng.random() < 0.25, plot_centroids=rng.random() < 0.2)
         v["cbar"] = rng.random() < 0.5
         plots.append(v)
     default_limits_first(pattern, plots)
@@ -935,10 +1000,11 @@ def run_cvt2(case, view=None):
         vmin, vmax = effective_limits(v, objs)
         where = f"cvt2 plot#{k} tr={int(tr)} vmin={vmin} vmax={vmax} clip={int(bool(v.get('clip')))}"
         where += view_tag(view)
-        kw = {"transpose_measures": tr}
-        if v.get("clip"):
-            kw["clip"] = True
-        obs, fail = call_both(cvt_archive_heatmap, a, v, kw, read_poly, where, vmin, vmax, frame=frame)
+        kw = {"transpose_measures": tr, "clip": bool(v.get("clip")), "plot_centroids": bool(v.get("plot_centroids"))}
+        cpts = a.centroids[:, ::-1] if tr else a.centroids
+        markers = [(cpts[:, 0], cpts[:, 1])] if kw["plot_centroids"] else []
+        obs, fail = call_both(cvt_archive_heatmap, a, v, kw, read_poly, where, vmin, vmax, frame=frame,
+                              markers=markers)
         if fail:
             return fail
         # ---- ORACLE ONLY (not modelled: qhull polygons): every polygon holds exactly one centroid,
@@ -959,6 +1025,12 @@ def run_cvt2(case, view=None):
                 return Failure("oracle", f"{where}: polygon {pi} contains centroids {inside} (must be exactly one)")
             if inside[0] in covered:
                 return Failure("oracle", f"{where}: centroid {inside[0]} lies in two polygons")
+            if v.get("clip"):
+                xd_, yd_ = (1, 0) if tr else (0, 1)
+                eps = 1e-9 * max(1.0, float(max(abs(x) for x in lo + hi)))
+                if not (np.all(verts[:, 0] >= float(lo[xd_]) - eps) and np.all(verts[:, 0] <= float(hi[xd_]) + eps) and
+                        np.all(verts[:, 1] >= float(lo[yd_]) - eps) and np.all(verts[:, 1] <= float(hi[yd_]) + eps)):
+                    return Failure("oracle", f"{where}: clip=True but polygon {pi} leaves the archive bounds")
             covered[inside[0]] = fc
         if set(covered) != set(range(n)):
             return Failure("oracle", f"{where}: centroids without a polygon: {sorted(set(range(n)) - set(covered))}")
@@ -1290,7 +1362,18 @@ def read_parallel(ncols):
         ylims = [tuple(F(v) for v in axes[i].get_ylim()) for i in range(ncols)]
         has_cbar = len(axes) > ncols
         clim = cbar_limits(fg.fig, ncols, horizontal=True) if has_cbar else None
-        return {"lines": lines, "ylims": ylims, "clim": clim}, None
+        # where the axes stand: axis i (its right spine carries the ticks of measure cols[i]) at x = i, in the data
+        # coordinates of the host axis, in which the lines have x data 0..ncols-1
+        xlim = tuple(float(v) for v in axes[0].get_xlim())
+        spine_x = [0.0]
+        for i in range(1, ncols):
+            pos = axes[i].spines["right"].get_position()
+            if not (isinstance(pos, tuple) and pos[0] == "axes"):
+                return None, f"axis {i}: right spine positioned by {pos!r}, not in Axes coordinates"
+            spine_x.append(xlim[0] + float(pos[1]) * (xlim[1] - xlim[0]))
+        return {"lines": lines, "ylims": ylims, "clim": clim, "xlim": xlim, "spine_x": spine_x,
+                "xticks": [float(t) for t in axes[0].get_xticks()],
+                "xlabels": [t.get_text() for t in axes[0].get_xticklabels()]}, None
     return read
 
 
@@ -1327,10 +1410,11 @@ def run_parallel(case, view=None):
         where = (f"parallel[{case.get('arch', 'grid')}] plot#{k} sort={int(sort)} order={order} vmin={vmin} "
                  f"vmax={vmax}")
         where += view_tag(view)
-        kw = {"sort_archive": sort}
+        kw = {"sort_archive": sort, "measure_order": None}
         if order is not None:
             kw["measure_order"] = [(c, f"m{c}") for c in order] if v.get("named") else list(order)
-        obs, fail = call_both(parallel_axes_plot, a, v, kw, read_parallel(len(cols)), where, vmin, vmax, frame=frame)
+        obs, fail = call_both(parallel_axes_plot, a, v, kw, read_parallel(len(cols)), where, vmin, vmax, frame=frame,
+                              twin_axes=len(cols) - 1, markers=None)
         if fail:
             return fail
         # an axis whose archive bounds coincide (all stored measures share the value) cannot be drawn with these
@@ -1358,6 +1442,20 @@ def run_parallel(case, view=None):
                                    f"stored value {float(lo[c])} of measure {c}")
             if len(obs["lines"]) != len(rows):
                 return Failure("oracle", f"{where}: {len(obs['lines'])} lines for {len(rows)} elites")
+            # geometry of the axes: the line of an elite meets axis i at x = i, so axis i must stand at x = i and
+            # carry the label of measure cols[i]
+            ncols = len(cols)
+            if ncols > 1 and obs["xlim"] != (0.0, float(ncols - 1)):
+                return Failure("oracle", f"{where}: x limits {obs['xlim']} of the host axis, expected (0, {ncols - 1})")
+            if any(abs(x - i) > 1e-9 for i, x in enumerate(obs["spine_x"])):
+                return Failure("oracle", f"{where}: the axes of measures {cols} stand at x = "
+                               f"{[round(x, 6) for x in obs['spine_x']]}, the lines meet them at x = "
+                               f"{list(range(ncols))}")
+            want_labels = [f"m{c}" for c in cols] if (order is not None and v.get("named")) else \
+                [f"measure_{c}" for c in cols]
+            if obs["xticks"] != [float(i) for i in range(ncols)] or obs["xlabels"] != want_labels:
+                return Failure("oracle", f"{where}: axis ticks {obs['xticks']} labelled {obs['xlabels']}, expected "
+                               f"{want_labels} at 0..{ncols - 1}")
             h0, h1 = obs["ylims"][0]
             if h0 == h1:
                 return Failure("oracle", f"{where}: the host axis has zero height")
